@@ -61,7 +61,7 @@ PROPS = {
         technique="Lean 4 proof (run + archive invariants by induction over the plan) + executable-model correspondence on histories + convergence/idempotence/independence oracles",
     ),
     "C07": dict(
-        modules=["Copia.Props.C07", "Copia.Props.C07b", "Copia.Props.C02c", "Copia.Props.C18b"], namespaces=["Copia.C07"], runner="bb", bb_module="bb_bisync",
+        modules=["Copia.Props.C07", "Copia.Props.C07b", "Copia.Props.C02c", "Copia.Props.C18b", "Copia.Props.C07c"], namespaces=["Copia.C07"], runner="bb", bb_module="bb_bisync",
         assumptions=_BI_ASSUME + ["`Archive::load` = none for every fault kind is checked on the real binary (SAFE banner vs the harness's strict-JSON prediction), not proved (serde_json is not modelled)"],
         trusted_base=_BI_TB,
         level_text="Kernel-checked theorems for ALL tree pairs: with an untrusted archive the plan contains no delete, no non-delete action ever removes a path, hence a whole run (even one that stops on an I/O error) "
